@@ -303,6 +303,10 @@ func runC06(c *Ctx) *Replay {
 	if c.R.Chance(1, 16) {
 		// payloads beyond 64 KiB, where stream decoders stop trusting the length prefix
 		cfg.Ladder, cfg.LadderBig = 3, 2
+	} else if c.R.Chance(1, 40) {
+		// GIANT arrays of scalars (2^17 elements): what a decoder allocates for the count
+		// alone, before the elements arrive, shows against the few bytes of a short prefix
+		cfg.Giant = 2
 	}
 	var pk *pick
 	for try := 0; try < 20; try++ {
@@ -412,9 +416,11 @@ func execTruncate(n *Node, sc *Scenario) *Violation {
 		if sc.RFault != nil {
 			rf = &simnet.ReadFault{At: k, Err: sc.RFault.Err, Partial: sc.RFault.Partial}
 		}
-		do = n.decode(rb, sc.Type, sc.Decoder, data, sc.Sched, rf, sc.Reader, len(data))
+		// budgets are relative to the bytes GIVEN (the first k), as the property says, not
+		// to the length of the complete encoding
+		do = n.decode(rb, sc.Type, sc.Decoder, data, sc.Sched, rf, sc.Reader, k)
 	} else {
-		do = n.decode(rb, sc.Type, sc.Decoder, data[:k], nil, nil, "", len(data))
+		do = n.decode(rb, sc.Type, sc.Decoder, data[:k], nil, nil, "", k)
 	}
 	if do.NoSuch {
 		note(sc, "skipped", "decoder not generated")
